@@ -758,7 +758,12 @@ class Engine(object):
       # Sometimes _use_node is called from outside _update_loop.  In this case,
       # we start an _update_loop to compute whatever is required.  Otherwise
       # nested dependencies would not get computed.
-      self._update_loop([WorkItem(node, row_ids, [])], ignore_other_changes=True)
+      try:
+        self._update_loop([WorkItem(node, row_ids, [])], ignore_other_changes=True)
+      finally:
+        # Save the changes made by this evaluation into out_actions; the next _pre_update() would
+        # drop them otherwise.
+        self._post_update()
 
 
   def _recompute_step(self, node, allow_evaluation=True, require_rows=None): # pylint: disable=too-many-statements
